@@ -136,7 +136,12 @@ def pipeline_trace(H):
     if c is not None:
         a, k = trace[c][2], trace[c][3]
         H.prove(And(not a, _same(H, k.get("allow_text"), allow_text), _same(H, k.get("drop_unsupported"), drop)), "pipeline.final_check_gets_allow_text_and_drop_unsupported")
-        H.prove(c == len(trace) - 1, "pipeline.nothing_runs_after_the_final_check", detail=str(names[c:]))
+        # the final check REMOVES unsupported elements when drop_unsupported is set: then (and only then) one more orphan sweep follows it
+        after = names[c + 1:]
+        if H.truth(drop):
+            H.prove(after == ["_remove_orphaned_gradients"], "pipeline.orphan_sweep_after_a_dropping_final_check", detail=str(after))
+        else:
+            H.prove(all(n == "_remove_orphaned_gradients" for n in after), "pipeline.nothing_but_a_sweep_runs_after_the_final_check", detail=str(after))
     sweeps = [i for i, n in enumerate(names) if n in ("_remove_orphaned_gradients", "simplify")]  # simplify ends with a sweep (simplify.trace)
     removing = [i for i, n in enumerate(names) if n in SHAPE_REMOVING]
     H.prove(bool(sweeps) and (not removing or max(sweeps) > max(removing)), "pipeline.orphan_sweep_after_last_shape_removal", detail=str(names))
